@@ -24,7 +24,7 @@ Section LConv.
   Notation lchk := (lchk num zero sev ebefore eafter).
   Notation lconvk := (lconvk num sub absf ltb zero sev ebefore eafter).
   Notation quiet_upto := (quiet_upto num sev ebefore eafter).
-  Notation solve_t := (linker_solve_t_M num sub absf ltb zero sev pre ebefore eafter post).
+  Notation solve_t := (linker_solve_t_body num sub absf ltb zero sev pre ebefore eafter post).
   Notation run_hook := (run_hook num).
   Notation zero_iters := (zero_iters num).
   Notation wf := (wf num).
@@ -191,6 +191,7 @@ Section LConv.
         + intros H. destruct (Hfailed Hnone) as (R & _). rewrite R in H. destruct (fail_raise o); discriminate.
         + intros [k Hg]. exfalso. exact (Hnone k Hg).
     Qed.
+
   End OneCall.
 End LConv.
 
@@ -234,7 +235,7 @@ Section LFrame.
   Notation iter_step := (iter_step num sev ebefore eafter).
   Notation lloop := (lloop num sub absf ltb zero sev ebefore eafter post).
   Notation lfinish := (lfinish num).
-  Notation solve_t := (linker_solve_t_M num sub absf ltb zero sev pre ebefore eafter post).
+  Notation solve_t := (linker_solve_t_body num sub absf ltb zero sev pre ebefore eafter post).
   Notation solve := (linker_solve_M num sub absf ltb zero sev pre ebefore eafter post).
   Notation solve_fold := (solve_fold num sub absf ltb zero sev pre ebefore eafter post).
   Notation llres_state := (llres_state num).
@@ -366,7 +367,7 @@ Section LFrame.
      entries at every position other than the one t denotes. *)
   Theorem solve_t_other_periods_untouched sel o t s : sfr t s (fst (solve_t sel o t s)).
   Proof.
-    unfold Linker.linker_solve_t_M. set (ids := sel_ids num sel s).
+    unfold Linker.linker_solve_t_body. set (ids := sel_ids num sel s).
     destruct (Linker.get_check_values num zero ids t s) as [cur|e]; [|apply sfr_refl].
     pose proof (zero_iters_P2 t ids (l_subs s)) as HZ.
     destruct (zero_iters ids t (l_subs s)) as [subs1 [e|]]; cbn [fst] in *.
@@ -377,6 +378,14 @@ Section LFrame.
       + eapply sfr_trans; eauto.
       + eapply sfr_trans; [exact H0|]. eapply sfr_trans; [exact H1|].
         eapply sfr_trans; [apply lloop_sfr|apply lfinish_sfr].
+  Qed.
+
+  Notation solve_tM := (linker_solve_t_M num sub absf ltb zero sev pre ebefore eafter post).
+  (* the same for the call as made: a guard that fires (ValueError / IndexError) changes nothing at all *)
+  Theorem solve_t_other_periods_untouched_M sel o t s : sfr t s (fst (solve_tM sel o t s)).
+  Proof.
+    unfold Linker.linker_solve_t_M. destruct (max_iter o <? min_iter o); [apply sfr_refl|].
+    destruct (linker_infeasible _ _ t); [apply sfr_refl|apply solve_t_other_periods_untouched].
   Qed.
 
   (* ---- solve() over a list of positions: only the listed positions can change ---- *)
@@ -418,8 +427,8 @@ Section LFrame.
   Lemma solve_fold_sfrs sel o : forall ps s acc, sfrs ps s (fst (solve_fold sel o ps s acc)).
   Proof.
     induction ps as [|t r IH]; intros s acc; cbn [Linker.solve_fold]; [apply sfrs_refl|].
-    pose proof (solve_t_other_periods_untouched sel o t s) as H1.
-    destruct (solve_t sel o t s) as [s' [b|e]]; cbn [fst] in *.
+    pose proof (solve_t_other_periods_untouched_M sel o t s) as H1.
+    destruct (solve_tM sel o t s) as [s' [b|e]]; cbn [fst] in *.
     - eapply sfrs_cons; [exact H1|apply IH].
     - apply sfrs_of_sfr. exact H1.
   Qed.
@@ -455,7 +464,7 @@ Section LRaise.
   Notation iter_step := (iter_step num sev ebefore eafter).
   Notation lloop := (lloop num sub absf ltb zero sev ebefore eafter post).
   Notation lfinish := (lfinish num).
-  Notation solve_t := (linker_solve_t_M num sub absf ltb zero sev pre ebefore eafter post).
+  Notation solve_t := (linker_solve_t_body num sub absf ltb zero sev pre ebefore eafter post).
   Notation llres_state := (llres_state num).
 
   (* no status entry has changed anywhere, and the linker's own iteration counters are as they were
@@ -571,7 +580,7 @@ Section LRaise.
   Theorem user_exception_stamps_nothing sel o t s c :
     snd (solve_t sel o t s) = LRaise (LUser c) -> nostamp s (fst (solve_t sel o t s)).
   Proof.
-    unfold Linker.linker_solve_t_M. set (ids := sel_ids num sel s).
+    unfold Linker.linker_solve_t_body. set (ids := sel_ids num sel s).
     destruct (Linker.get_check_values num zero ids t s) as [cur|e]; [|discriminate].
     pose proof (zero_iters_S2 t ids (l_subs s)) as HZ.
     destruct (zero_iters ids t (l_subs s)) as [subs1 [e|]]; cbn [fst snd] in *; [discriminate|].
@@ -582,6 +591,14 @@ Section LRaise.
     - intros H. apply lfinish_user in H as (s2 & E & F). rewrite F.
       pose proof (lloop_nostamp ids o t (Z.to_nat (max_iter o)) 1%nat s1 cur) as H2. rewrite E in H2. cbn [LinkerFacts.llres_state] in H2.
       eapply nostamp_trans; [exact H0|]. eapply nostamp_trans; eauto.
+  Qed.
+
+  Theorem user_exception_stamps_nothing_M sel o t s c :
+    snd (linker_solve_t_M num sub absf ltb zero sev pre ebefore eafter post sel o t s) = LRaise (LUser c) ->
+    nostamp s (fst (linker_solve_t_M num sub absf ltb zero sev pre ebefore eafter post sel o t s)).
+  Proof.
+    unfold Linker.linker_solve_t_M. destruct (max_iter o <? min_iter o); [discriminate|].
+    destruct (linker_infeasible _ _ t); [discriminate|apply user_exception_stamps_nothing].
   Qed.
 End LRaise.
 
@@ -620,7 +637,7 @@ Section LStatus.
   Notation stamp_subs := (stamp_subs num).
   Notation lloop := (lloop num sub absf ltb zero sev ebefore eafter post).
   Notation lfinish := (lfinish num).
-  Notation solve_t := (linker_solve_t_M num sub absf ltb zero sev pre ebefore eafter post).
+  Notation solve_t := (linker_solve_t_body num sub absf ltb zero sev pre ebefore eafter post).
   Notation nostamp := (nostamp num).
 
   Definition sst (x : st) (c c' : comp) : Prop := stamped x (status (c_st c)) (status (c_st c')).
@@ -711,7 +728,7 @@ Section LStatus.
   Theorem solve_t_stamps_only_solved_or_failed sel o t s :
     exists x, (x = Solved \/ x = Failed) /\ only_stamped x s (fst (solve_t sel o t s)).
   Proof.
-    unfold Linker.linker_solve_t_M. set (ids := sel_ids num sel s).
+    unfold Linker.linker_solve_t_body. set (ids := sel_ids num sel s).
     assert (Triv : forall s', nostamp s s' -> exists x, (x = Solved \/ x = Failed) /\ only_stamped x s s').
     { intros s' H. exists Failed. split; [right; reflexivity|apply only_stamped_of_nostamp; exact H]. }
     destruct (Linker.get_check_values num zero ids t s) as [cur|e]; [|apply Triv; apply nostamp_refl].
@@ -729,5 +746,15 @@ Section LStatus.
           apply only_stamped_of_nostamp. eapply nostamp_trans; [exact H0|]. eapply nostamp_trans; eauto.
         * cbn [LinkerFacts.llres_state Linker.lfinish fst] in *. apply Triv.
           eapply nostamp_trans; [exact H0|]. eapply nostamp_trans; eauto.
+  Qed.
+
+  Theorem solve_t_stamps_only_solved_or_failed_M sel o t s :
+    exists x, (x = Solved \/ x = Failed) /\
+              only_stamped x s (fst (linker_solve_t_M num sub absf ltb zero sev pre ebefore eafter post sel o t s)).
+  Proof.
+    assert (Triv : exists x, (x = Solved \/ x = Failed) /\ only_stamped x s s).
+    { exists Failed. split; [right; reflexivity|apply only_stamped_of_nostamp; apply nostamp_refl]. }
+    unfold Linker.linker_solve_t_M. destruct (max_iter o <? min_iter o); [exact Triv|].
+    destruct (linker_infeasible _ _ t); [exact Triv|apply solve_t_stamps_only_solved_or_failed].
   Qed.
 End LStatus.
